@@ -224,3 +224,66 @@ Example handler_example :
   | None => False
   end.
 Proof. vm_compute. repeat split. Qed.
+
+(* ------------------------------------------------------------------ the TASK_CANCEL handler *)
+Fixpoint count_placements (t : Z) (l : list pev) : nat :=
+  match l with [] => 0%nat | p :: r => ((if is_placement_of t p then 1 else 0) + count_placements t r)%nat end.
+
+Lemma pev_eqb_refl p : pev_eqb p p = true.
+Proof.
+  unfold pev_eqb, shape_eqb, otask_eqb. rewrite Z.eqb_refl.
+  assert (E : event_type_eqb (pe_type p) (pe_type p) = true) by (destruct (pe_type p); reflexivity).
+  rewrite E. destruct (pe_task p) as [[a b]|]; [rewrite !Z.eqb_refl|]; reflexivity.
+Qed.
+
+Lemma pev_eqb_placement t a b : pev_eqb a b = true -> is_placement_of t a = is_placement_of t b.
+Proof.
+  unfold pev_eqb, shape_eqb, otask_eqb, is_placement_of. intros H.
+  apply andb_prop in H. destruct H as [_ H]. apply andb_prop in H. destruct H as [Ht Hk].
+  assert (pe_type a = pe_type b) by (destruct (pe_type a), (pe_type b); cbn in Ht; congruence). rewrite H.
+  destruct (pe_task a) as [[x r]|], (pe_task b) as [[y r']|]; try discriminate; [|reflexivity].
+  apply andb_prop in Hk. destruct Hk as [Hk _]. assert (x = y) by lia. subst. reflexivity.
+Qed.
+
+Lemma count_remove_one t p l :
+  In p l -> is_placement_of t p = true -> count_placements t (remove_one p l) = (count_placements t l - 1)%nat.
+Proof.
+  induction l as [|x l IH]; intros Hin Hp; [destruct Hin|]. cbn [remove_one count_placements].
+  destruct (pev_eqb x p) eqn:E.
+  - rewrite (pev_eqb_placement t x p E), Hp. lia.
+  - destruct Hin as [Hin|Hin]; [subst; rewrite pev_eqb_refl in E; discriminate|].
+    cbn [count_placements]. rewrite (IH Hin Hp).
+    assert (1 <= count_placements t l)%nat.
+    { clear -Hin Hp. induction l as [|y l IH]; [destruct Hin|]. cbn. destruct Hin as [H|H]; [subst; rewrite Hp; lia|].
+      specialize (IH H). destruct (is_placement_of t y); lia. }
+    destruct (is_placement_of t x); lia.
+Qed.
+
+Lemma find_in {A} (f : A -> bool) l x : find f l = Some x -> In x l /\ f x = true.
+Proof. intros H. apply find_some in H. exact H. Qed.
+
+Lemma mem_pev_in p l : In p l -> mem_pev p l = true.
+Proof. unfold mem_pev. intros H. apply existsb_exists. exists p. split; [exact H|apply pev_eqb_refl]. Qed.
+
+(* the handler's call is accepted by the machine with the queue and removes exactly one placement event of the cancelled task;
+   when the task had at most one pending placement (the simulator keeps one per task in _future_placement_events), none remains *)
+Lemma cancel_calls_accepted W q t :
+  exists q', sq_exec W q (cancel_calls q t) = Some q' /\ q_sim q' = q_sim q /\
+    count_placements t (q_pending q') = (count_placements t (q_pending q) - 1)%nat.
+Proof.
+  unfold cancel_calls, cancel_outcome. destruct (find (is_placement_of t) (q_pending q)) as [p|] eqn:F.
+  - destruct (find_in _ _ _ F) as [Hin Hp]. cbn [sq_exec sq_step]. rewrite (mem_pev_in _ _ Hin).
+    eexists. split; [reflexivity|]. cbn [q_sim q_pending]. split; [reflexivity|]. apply count_remove_one; assumption.
+  - cbn [sq_exec]. exists q. split; [reflexivity|]. split; [reflexivity|].
+    assert (count_placements t (q_pending q) = 0%nat).
+    { pose proof (find_none _ _ F) as N. clear F. induction (q_pending q) as [|x l IH]; [reflexivity|].
+      cbn. rewrite (N x (or_introl eq_refl)). apply IH. intros y Hy. apply N. right. exact Hy. }
+    lia.
+Qed.
+
+Lemma cancel_leaves_no_placement W q t :
+  (count_placements t (q_pending q) <= 1)%nat ->
+  exists q', sq_exec W q (cancel_calls q t) = Some q' /\ count_placements t (q_pending q') = 0%nat.
+Proof.
+  intros H. destruct (cancel_calls_accepted W q t) as (q' & E & _ & C). exists q'. split; [exact E|lia].
+Qed.
